@@ -421,8 +421,11 @@ class HttpCommunicationLayer(CommunicationLayer):
                     "sender-comp": msg.src_comp,
                     "dest-comp": msg.dest_comp,
                     "type": str(msg.msg_type),
+                    "Content-Type": "application/json",
                 },
-                json=msg_repr,
+                # Do not use requests' json= argument: recent versions refuse
+                # non-finite numbers, which we do use (infinite costs / bounds).
+                data=json.dumps(msg_repr),
                 timeout=0.5,
             )
         except ConnectionError:
